@@ -332,16 +332,56 @@ def r6(R):
     for meth in ('store', 'storeBlob'):
         f = R.method(tmp, meth)
         g, b, F = R.cfg(f, tmp, max_depth=0)
+        # record bytes: every write happens with the file positioned at
+        # self.position (load() and reset() leave the pointer elsewhere)
+        def edge(node, st, lab, tgt, F=F):
+            if lab in ('e', 'eb'):
+                return st
+            for op in F.ops(node):
+                if op.kind == 'call' and path_is(
+                        op.path, ('self', '_file', 'seek')):
+                    a = op.ast.args
+                    st = len(a) == 1 and dotted(a[0]) is not None and \
+                        F.canon(a[0], node.frame) == ('self', 'position')
+                elif op.kind == 'call' and op.path and len(op.path) == 3 \
+                        and tuple(op.path[:2]) == ('self', '_file') and \
+                        op.path[2] in ('read', 'readline', 'truncate'):
+                    st = False
+                elif op.kind in ('store', 'aug') and path_is(
+                        op.path, ('self', 'position')):
+                    st = False
+            return st
+
+        def at(node, st, F=F, meth=meth):
+            for op in F.ops(node):
+                if op.kind == 'call' and path_is(
+                        op.path, ('self', '_file', 'write')) and not st:
+                    return Violation(
+                        'TmpStore.%s writes record bytes without having '
+                        'moved the file to self.position: load() leaves the '
+                        'pointer behind the record it read, so the record of '
+                        'an older savepoint is overwritten in place while '
+                        'index and position advance as if it had been '
+                        'appended' % meth)
+                if op.kind == 'call' and path_is(
+                        op.path, ('self', '_file', 'seek')):
+                    # a write follows in the same position epoch
+                    pass
+            return st
+
+        nw = 0
         for op in F.all_ops():
-            # record bytes: written at self.position, found through index
-            if op.kind == 'call' and path_is(op.path, ('self', '_file', 'seek')):
-                n += 1
-                R.instance('TmpStore.%s record position' % meth)
-                a = op.ast.args[0] if op.ast.args else None
-                if not (a is not None and dotted(a) and F.canon(
-                        a, op.node.frame) == ('self', 'position')):
-                    R.violation(op.node, 'savepoint records are not written '
-                                'at the restored position')
+            if op.kind == 'call' and path_is(op.path,
+                                             ('self', '_file', 'write')):
+                nw += 1
+        if nw:
+            n += 1
+            R.instance('TmpStore.%s record position' % meth, writes=nw)
+            vs, stats = explore(g, False, at=at, edge=edge)
+            R.count(stats)
+            for v in vs:
+                R.violation(v.node, v.message, g, v.path)
+        for op in F.all_ops():
             # files: named from restored state
             if op.kind == 'call' and op.path and op.path[-1] in (
                     '@ZODB.blob.rename_or_copy_blob',
@@ -364,6 +404,28 @@ def r6(R):
                                 'first shows -- and commits -- the later '
                                 'bytes (reset() cannot restore it)')
     R.require(n >= 2, 'savepoint store writes not recognised')
+    # files: none is removed while the store lives (any earlier savepoint,
+    # whose index names its files, may still be rolled back to)
+    REMOVERS = ('remove', 'unlink', 'rmtree', 'remove_committed',
+                'remove_committed_dir', 'rmdir', 'removedirs')
+    nrm = 0
+    for name, f in sorted(tmp.methods.items()):
+        g, b, F = R.cfg(f, tmp, max_depth=0)
+        for op in F.all_ops():
+            if op.kind == 'call' and op.path and (
+                    op.path[-1] in REMOVERS or
+                    op.path[-1].split('.')[-1] in REMOVERS):
+                nrm += 1
+                R.instance('TmpStore.%s removes files' % name)
+                if name != 'close':
+                    R.violation(op.node, 'TmpStore.%s removes a file of the '
+                                'savepoint store before the store is closed: '
+                                'an earlier savepoint whose index names that '
+                                'file can still be rolled back to; the blob '
+                                'then silently shows the previously committed '
+                                'bytes (or POSKeyError), and they are what '
+                                'the commit stores' % name)
+    R.require(nrm >= 1, 'TmpStore.close no longer removes the blob files')
 
 
 @rule('C12.R8', 'a blob file of the savepoint store is served only for oids '
